@@ -2724,11 +2724,11 @@ Ops!(
     b"yhyo"       , [0x02, 0x19        ], X, VEX_OP | WITH_VEXL | PREF_66, AVX;
 ]
 "vbroadcastss" = [
-    b"y*md"       , [0x02, 0x18        ], X, VEX_OP | PREF_66, AVX;
+    b"y*md"       , [0x02, 0x18        ], X, VEX_OP | AUTO_VEXL | PREF_66, AVX;
     b"y*yo"       , [0x02, 0x18        ], X, VEX_OP | AUTO_VEXL | PREF_66, AVX;
 ]
 "vcmpeq_ospd" = [
-    b"y*y*w*"     , [0x01, 0xC2, 0x10  ], X, VEX_OP | PREF_66 | IMM_OP, AVX;
+    b"y*y*w*"     , [0x01, 0xC2, 0x10  ], X, VEX_OP | AUTO_VEXL | PREF_66 | IMM_OP, AVX;
     b"yoyowo"     , [0x01, 0xC2, 0x10  ], X, VEX_OP | IMM_OP | PREF_66, AVX;
 ]
 "vcmpeq_osps" = [
@@ -4864,7 +4864,7 @@ Ops!(
     b"y*y*ib"     , [0x01, 0x73        ], 3, VEX_OP | AUTO_VEXL | ENC_VM | PREF_66, AVX;
 ]
 "vpsrlq" = [
-    b"y*y*ib"     , [0x01, 0x73        ], 2, VEX_OP | ENC_VM | PREF_66, AVX;
+    b"y*y*ib"     , [0x01, 0x73        ], 2, VEX_OP | AUTO_VEXL | ENC_VM | PREF_66, AVX;
     b"y*y*wo"     , [0x01, 0xD3        ], X, VEX_OP | AUTO_VEXL | PREF_66, AVX;
 ]
 "vpsrlvd" = [
